@@ -31,7 +31,10 @@ from fsa.match import (
     str_eq_test,
 )
 from fsa.source import AnchorMissing, Unsupported, stmt_key, text
+from fsa.cfg import raised_class
+from fsa.match import Unknown
 from rules.solver_common import (
+    position_cmp,
     SolverShape,
     check_convergence,
     expr,
@@ -130,30 +133,40 @@ def r2_offset(R, sh: SolverShape) -> None:
             g_off = True
     R.check(g_off, sh.q, 'offset-copy-guard', 'offset copy runs only when offset is non-zero',
             'offset copy is not guarded by `if offset`', where=sh.where(cp.node))
-    # (d) two range rejections dominate the copy
+    # (d) two range rejections dominate the copy (locals are read through; comparisons in integer canonical form)
     found_lo = found_hi = None
+    lo = cmp_of(expr('P + offset < 0')).as_int()
+    his = [cmp_of(expr(f'P + offset >= {ls}')).as_int() for ls in ('len(self.span)', "len(self.__dict__['span'])")]
+    near = []
+    unresolved = []
     for (a, truth, tn) in guard_atoms(sh, cp.node.id):
         if truth:
             continue
-        c = cmp_of(a)
-        if c is None:
+        cc = position_cmp(sh, tn.id, a)
+        if cc is None:
+            c0 = cmp_of(sh.expand(tn.id, a))
+            if c0 is not None and {'t', 'offset'} <= set(c0.expr.terms):
+                R.violation(sh.q, 'offset-guard-raw-position:' + text(tn.ast), f'the offset range check `{text(tn.ast)}` uses the raw position `t`, which may be negative '
+                            f'(counting from the end): an out-of-span source period is not rejected for negative `t`', where=sh.where(tn))
+                return
+            if any(raised_class(sh.cfg.nodes[b].ast) == 'IndexError' for (b, lab) in tn.succ if lab == 'T' and isinstance(sh.cfg.nodes[b].ast, ast.Raise)):
+                unresolved.append(tn)
             continue
-        # which local holds the normalised position?
-        names = [k for k in c.expr.terms if k.isidentifier() and k not in ('offset', 't')]
-        for nm in names:
-            if not is_normalised_position(sh, tn.id, nm):
-                continue
-            subst = {nm: Affine(Fraction(0), {'P': Fraction(1)})}
-            cc = cmp_of(a, subst).as_int()
-            lo = cmp_of(expr('P + offset < 0')).as_int()
-            his = [
-                cmp_of(expr(f'P + offset >= {ls}')).as_int()
-                for ls in ('len(self.span)', "len(self.__dict__['span'])")
-            ]
-            if cc == lo:
-                found_lo = tn
-            elif cc in his:
-                found_hi = tn
+        if 'offset' not in cc.expr.terms:
+            continue
+        if cc == lo:
+            found_lo = tn
+        elif cc in his:
+            found_hi = tn
+        else:
+            near.append((tn, cc))
+    if (found_lo is None or found_hi is None) and unresolved and not near:
+        raise Unknown(f'{sh.q}: an IndexError guard of the offset copy (`{text(unresolved[0].ast)}`) could not be resolved to the normalised position')
+    for (tn, cc) in near:
+        R.violation(sh.q, 'offset-guard-bound:' + text(tn.ast), f'the offset range check `{text(tn.ast)}` is `{cc!r}` in canonical form (P = normalised position): neither '
+                    f'`P + offset < 0` nor `P + offset >= len(span)` (an out-of-span source period would be accepted, or a valid one refused)', where=sh.where(tn))
+    if near:
+        return
     # `t` itself may be used if normalised in place: not accepted (unknown idiom)
     for which, tn, desc in (('lo', found_lo, 'P + offset < 0'), ('hi', found_hi, 'P + offset >= len(span)')):
         if tn is None:
